@@ -107,6 +107,20 @@ func isNearLayoutThreshold(x float64) bool { // C06-TOSTRING-LOG10: ToString lay
 // parameter conversion) or "store" (map / slice / array elements); it only widens the accepted
 // set (store: conversions of non-Number values pinned by otto's tests) and delimits known classes.
 func Denote(v JV, t reflect.Type, path string) Den {
+	d := denote0(v, t, path)
+	if k := t.Kind(); path == "call" && t.PkgPath() != "" && (k == reflect.String || k == reflect.Bool) {
+		has := false
+		for _, id := range d.Known {
+			has = has || id == KNamedType
+		}
+		if !has {
+			d.Known = append(d.Known, KNamedType)
+		}
+	}
+	return d
+}
+
+func denote0(v JV, t reflect.Type, path string) Den {
 	k := t.Kind()
 	named := t.PkgPath() != "" && k != reflect.Struct // MyInt, MyStr, … (non-struct named types)
 
@@ -183,8 +197,8 @@ func Denote(v JV, t reflect.Type, path string) Den {
 			} else {
 				d.St, d.Hard = Impossible, true
 			}
-			if k == reflect.Float32 && !ok {
-				d.Known = append(d.Known, KFloat32)
+			if k == reflect.Float32 && !ok && math.Abs(x) <= math.MaxFloat32 {
+				d.Known = append(d.Known, KFloat32) // rounding / underflow; an overflow must still be refused
 			}
 			if path == "call" && named && v.GoKind() == k.String() {
 				d.Known = append(d.Known, KNamedType)
@@ -224,8 +238,11 @@ func Denote(v JV, t reflect.Type, path string) Den {
 		default:
 			d.St = Impossible
 		}
-		if k == reflect.Float32 && !sok {
+		if k == reflect.Float32 && !sok && math.Abs(n) <= math.MaxFloat32 {
 			d.Known = append(d.Known, KFloat32)
+		}
+		if path == "store" && ((n == 9223372036854775808 && (k == reflect.Int64 || k == reflect.Int)) || (n == 18446744073709551616 && (k == reflect.Uint64 || k == reflect.Uint))) {
+			d.Known = append(d.Known, KStoreBound)
 		}
 		return d
 
